@@ -340,6 +340,9 @@ for _n in ["c15_ping_z0", "c15_ping_z1", "c15_ping_z3", "c15_pong_z0", "c15_pong
     _c15h.append(h)
     if "subscribe" in _n or "unknown" in _n or "info" in _n:
         _c13h.append(h)
+_c15h.append(H("c15_size_limits", "node", "wire::verif_kani::c15", "wire_c15", tiers=Q, covers=1, stubs=_OID,
+    functions=["<RepoId as Encode>::encode", "<NodeId as Encode>::encode", "<Signature as Encode>::encode", "<RefsAt as Encode>::encode", "<Timestamp as Encode>::encode", "constants INVENTORY_LIMIT, REF_REMOTE_LIMIT, ADDRESS_LIMIT, MAX_ALIAS_LENGTH, MAX_PING_ZEROES, MAX_PONG_ZEROES, wire::Size::MAX"],
+    bounds="item contents symbolic (20-byte oid, 32-byte key, 64-byte signature, u32 timestamp); maximal inventory / refs / node announcements and ping / pong computed from the real constants and the real encoded item sizes stay within the 16-bit frame limit"))
 PROPERTIES["C13"] = {
     "harnesses": _c13h,
     "outside": ["git request header (pkt-line) parsing: not encodable (see harness/incrate/worker.rs); the baseline panics there for length fields < 4 or > 1024 are known from reading but are NOT established by a check",
@@ -352,6 +355,6 @@ PROPERTIES["C15"] = {
     "harnesses": _c15h,
     "outside": ["announcement messages (node, inventory, refs) and Subscribe with a valid 1/4/16 KiB filter: length-prefixed vectors/strings are not encodable within reach",
                 "value round trip decode(encode(m)) == m is only covered through byte canonicity of the layouts (git2::Oid equality is FFI)",
-                "size-limit constants (INVENTORY_LIMIT, REF_REMOTE_LIMIT, ADDRESS_LIMIT) vs the frame limit"],
+                "the size-limit harness takes the announcement *structure* (which fields, in which order) from reading the encoders; only item sizes and constants come from the code"],
     "assumptions": [],
 }
